@@ -158,7 +158,9 @@ def plot_recovery_rate(
         plot_kwargs = {}
 
     cumulative = reservoir.recovery_factor()
-    rate = np.gradient(cumulative, reservoir.time)
+    # difference in double precision: with a float32 time grid the 1/dt weights of the
+    # gradient do not cancel and the late-time rate drowns in their rounding error
+    rate = np.gradient(cumulative, np.asarray(reservoir.time, dtype=np.float64))
     ax.plot(reservoir.time, rate, label="Recovery rate", **plot_kwargs)
     ax.set(
         xscale="log",
